@@ -19,13 +19,13 @@ Definition pr_rs (o : @robs ascii) : prd :=
   match o with RPos p => PPos p | RErr => PRErr | RData d => PStr (sh d) end.
 
 Inductive pobs :=
-| PUnit | PBytes (s : string) | PBool (b : bool) | PList (l : list string) | PSize (n : Z) | PSizeDir | PErr (e : errk)
+| PUnit | PBytes (s : string) | PBool (b : bool) | PList (l : list string) | PSize (n : Z) | PErr (e : errk)
 | POpened (os : list prd) (final : Z).
 
 Definition pr (o : obs) : pobs :=
   match o with
   | OUnit => PUnit | OBytes v => PBytes (sh v) | OBool b => PBool b | OList l => PList (map sh l)
-  | OSize n => PSize n | OSizeDir => PSizeDir | OErr e => PErr e
+  | OSize n => PSize n | OErr e => PErr e
   | OOpened os final => POpened (map pr_rs os) final
   end.
 
@@ -33,7 +33,7 @@ Definition pr (o : obs) : pobs :=
 Definition case3 (raw_prefix : string) (F : list (string * string)) (ops : list (op key)) :=
   let Fb := map (fun kv => (lit (fst kv), lit (snd kv))) F in
   ( map pr (run_spec ops), map pr (run_local ops), map pr (run_s3 (lit raw_prefix) Fb ops),
-    forallb wf_opb ops, prefix_freeb (op_keys ops), foreign_okb (gen_init_prefix (lit raw_prefix)) Fb ).
+    forallb wf_opb ops, prefix_freeb (written_keys ops), foreign_okb (gen_init_prefix (lit raw_prefix)) Fb ).
 
 (* string-level runs (any strings, also outside the canonical domain) *)
 Definition run_s3_str (raw_prefix : string) (F : list (string * string)) (ops : list (op string)) :=
@@ -87,3 +87,21 @@ Inductive ppl := PLReturned (l : list string) | PLRaised (f : fault) | PLEnded.
 Definition paged_case (pages : list (list string)) (pl : list (option fault)) :=
   let '(r, n) := paged_list gen_max_retries pages pl in
   (match r with Returned l => PLReturned l | Raised f => PLRaised f | ScriptEnded => PLEnded end, Z.of_nat n).
+
+(* S3 backend over a failing store (Model/BackendFault.v): results, final bucket, and whether the plans lie inside the
+   masking theorem's domain (with / without the proviso about the last attempt).  A plan entry is
+   None | Some (after?, exception). *)
+Require Import DS.Model.BackendFault.
+Inductive pfres := PFObs (o : pobs) | PFExn (e : pexn).
+Definition mk_plan (pl : list (option (bool * pexn))) : fplan :=
+  map (fun x => match x with None => None | Some (a, e) => Some (if a : bool then FAfter else FBefore, mk_exn e) end) pl.
+Definition fault_case (page : nat) (raw_prefix : string) (F : list (string * string)) (ops : list (op key))
+                      (plans : list (list (option (bool * pexn)))) :=
+  let Fb := map (fun kv => (lit (fst kv), lit (snd kv))) F in
+  let pls := map mk_plan plans in
+  let '(rs, bf) := run_f gen_max_retries page (gen_init_prefix (lit raw_prefix)) Fb (map (map_op join) ops) pls in
+  (map (fun r => match r with inl o => PFObs (pr o) | inr e => PFExn (pr_exn e) end) rs,
+   map (fun kv => (sh (fst kv), sh (snd kv))) bf,
+   forallb wf_opb ops && foreign_okb (gen_init_prefix (lit raw_prefix)) Fb,
+   plans_okb gen_max_retries ops pls, plans_withinb gen_max_retries ops pls,
+   map pr (run_spec ops)).
